@@ -6,8 +6,10 @@ import FV.Proofs.Alloc
   `_calculate_areas_and_centers`), not only to the parsing layer `FV.Prod.readAlloc`.
   The document tree (`YVal`, numbers with their Python tag) is translated to the constructor model's input descriptors
   (`Alloc.RawCell`, numbers by value) by `rawOfTree`.
-  NOT carried by the document: the run-time marks of a cell's rectangle (`fixed`, `hard`, STOG location): the re-read
-  rectangles carry the defaults (`stripCell`).
+  REPAIRED (fixes/C19_alloc_fixed_mark.diff): the `fixed` mark of a cell's rectangle is part of the document (fourth entry
+  `fixed` of a descriptor) and the reader restores it: `mkAllocationDoc` = `_parse_yaml_tree` with the mark, then the rest of
+  the constructor.  NOT carried by the document: the marks `hard` and STOG location of a cell's rectangle, which no
+  allocation operation reads: the re-read rectangles carry the defaults for these two (`stripCell`).
 -/
 namespace FV.Prod
 open FV FV.NL
@@ -41,31 +43,41 @@ def rawOfDepth : YVal α → Option Int
   | .bool b => some (if b then 1 else 0)
   | _ => none
 
-/-- one allocation descriptor `[rectangle, {module: ratio}, depth?]`. -/
-def rawOfCell : YVal α → Option (Alloc.RawCell α)
+/-- `alloc[3] == KW_FIXED`. -/
+def rawOfMark : YVal α → Option Bool
+  | .str s => if s = kwFixed then some true else none
+  | _ => none
+
+/-- one allocation descriptor `[rectangle, {module: ratio}, depth?, fixed?]`: the constructor model's descriptor and the
+    mark (REPAIRED reader). -/
+def rawOfCell : YVal α → Option (Alloc.RawCell α × Bool)
   | .seq [r, .map l] =>
     match rawOfRect r, l.mapM rawOfEntry with
-    | some rr, some al => some ⟨rr, al, 0⟩
+    | some rr, some al => some (⟨rr, al, 0⟩, false)
     | _, _ => none
   | .seq [r, .map l, d] =>
     match rawOfRect r, l.mapM rawOfEntry, rawOfDepth d with
-    | some rr, some al, some dd => some ⟨rr, al, dd⟩
+    | some rr, some al, some dd => some (⟨rr, al, dd⟩, false)
     | _, _, _ => none
+  | .seq [r, .map l, d, m] =>
+    match rawOfRect r, l.mapM rawOfEntry, rawOfDepth d, rawOfMark m with
+    | some rr, some al, some dd, some fx => some (⟨rr, al, dd⟩, fx)
+    | _, _, _, _ => none
   | _ => none
 
 /-- the allocation document as the list of descriptors `Allocation.__init__` iterates over (`none`: not of that shape). -/
-def rawOfTree : YVal α → Option (List (Alloc.RawCell α))
+def rawOfTree : YVal α → Option (List (Alloc.RawCell α × Bool))
   | .seq l => l.mapM rawOfCell
   | _ => none
 
 /-- the cell of the allocation object (`FV.Alloc.Cell`, numbers by value) as the writer model reads it. -/
 def ofACell (c : Alloc.Cell α) : Cell α :=
   { rect := { cx := .f c.rect.cx, cy := .f c.rect.cy, w := .f c.rect.w, h := .f c.rect.h, region := c.rect.region },
-    alloc := c.alloc.map fun kv => (kv.1, .f kv.2), depth := c.depth }
+    alloc := c.alloc.map fun kv => (kv.1, .f kv.2), depth := c.depth, fixed := c.rect.fixed }
 
-/-- the descriptor the written document holds for a cell. -/
-def docRaw (c : Alloc.Cell α) : Alloc.RawCell α :=
-  ⟨.vec c.rect.cx c.rect.cy c.rect.w c.rect.h (some c.rect.region), c.alloc, (c.depth : Int)⟩
+/-- the descriptor (and mark) the written document holds for a cell. -/
+def docRaw (c : Alloc.Cell α) : Alloc.RawCell α × Bool :=
+  (⟨.vec c.rect.cx c.rect.cy c.rect.w c.rect.h (some c.rect.region), c.alloc, (c.depth : Int)⟩, c.rect.fixed)
 
 theorem mapM_rawOfEntry (al : List (String × α)) :
     (al.map fun kv => ((YVal.str kv.1 : YVal α), YVal.ofNum (Num.f kv.2))).mapM rawOfEntry = some al := by
@@ -81,14 +93,22 @@ theorem rawOfCell_written (c : Alloc.Cell α) : rawOfCell (ofACell c).toY = some
   have ha : ((ofACell c).alloc.map fun kv => ((YVal.str kv.1 : YVal α), YVal.ofNum kv.2)).mapM rawOfEntry = some c.alloc := by
     have := mapM_rawOfEntry (α := α) c.alloc
     simpa [ofACell, List.map_map, Function.comp_def] using this
-  by_cases hd : c.depth > 0
-  · have hd' : (ofACell c).depth > 0 := hd
-    simp only [Cell.toY, hd', if_true, List.cons_append, List.nil_append, rawOfCell, hr, ha, rawOfDepth, docRaw]
-    rfl
-  · have hd' : ¬ (ofACell c).depth > 0 := hd
-    have h0 : c.depth = 0 := by omega
-    simp only [Cell.toY, hd', if_false, List.append_nil, rawOfCell, hr, ha, docRaw, h0]
-    rfl
+  have hf : (ofACell c).fixed = c.rect.fixed := rfl
+  have hdp : (ofACell c).depth = c.depth := rfl
+  cases hfx : c.rect.fixed with
+  | true =>
+    simp only [Cell.toY, hf, hfx, or_true, if_true, List.cons_append, List.nil_append, rawOfCell, hr, ha, rawOfDepth,
+      rawOfMark, docRaw, hdp]
+  | false =>
+    by_cases hd : c.depth > 0
+    · have hd' : (ofACell c).depth > 0 := hd
+      simp only [Cell.toY, hf, hfx, hd, hd', or_false, if_true, Bool.false_eq_true, if_false, List.cons_append,
+        List.nil_append, List.append_nil, rawOfCell, hr, ha, rawOfDepth, docRaw, hdp]
+    · have hd' : ¬ (ofACell c).depth > 0 := hd
+      have h0 : c.depth = 0 := by omega
+      simp only [Cell.toY, hf, hfx, hd', or_false, Bool.false_eq_true, if_false, List.append_nil, rawOfCell, hr, ha,
+        docRaw, h0]
+      rfl
 
 theorem mapM_map_some {β γ δ : Type} (f : γ → Option δ) (g : β → γ) (k : β → δ) (l : List β)
     (h : ∀ x, f (g x) = some (k x)) : (l.map g).mapM f = some (l.map k) := by
@@ -106,12 +126,38 @@ end tr
 section ctor
 variable {α : Type} [Field α] [LinearOrder α] [IsStrictOrderedRing α]
 open FV.Alloc in
-/-- what is left of a cell after a trip through the document: the rectangle loses its run-time marks. -/
+/-- what is left of a cell after a trip through the document (REPAIRED format): geometry, region, ratio map, depth and
+    the `fixed` mark are kept; `hard` and the STOG location — which no allocation operation reads — are reset. -/
 def stripCell (c : Alloc.Cell α) : Alloc.Cell α :=
+  { c with rect := { cx := c.rect.cx, cy := c.rect.cy, w := c.rect.w, h := c.rect.h, region := c.rect.region,
+                     fixed := c.rect.fixed } }
+
+/-- what was left of a cell on the code AS FOUND: the `fixed` mark is gone too. -/
+def stripCellOrig (c : Alloc.Cell α) : Alloc.Cell α :=
   { c with rect := { cx := c.rect.cx, cy := c.rect.cy, w := c.rect.w, h := c.rect.h, region := c.rect.region } }
 
+/-- `rect.fixed = True` when the descriptor carries the mark. -/
+def markCell (fx : Bool) (c : Alloc.Cell α) : Alloc.Cell α :=
+  if fx then { c with rect := { c.rect with fixed := true } } else c
+
+/-- one iteration of the REPAIRED `_parse_yaml_tree`: the asserts and `parse_yaml_rectangle` of C02's `parseCell`, then the
+    mark. -/
+def parseCellDoc (d : Alloc.RawCell α × Bool) : Except Alloc.AErr (Alloc.Cell α) :=
+  match Alloc.parseCell d.1 with
+  | .error e => .error e
+  | .ok c => .ok (markCell d.2 c)
+
+/-- `Allocation(document)` (REPAIRED): `_parse_yaml_tree` with the marks, then the rest of the constructor — bounding
+    box, tolerances, `_check_no_overlap`, `_calculate_areas_and_centers` — which is C02's `mkAllocation` on the cells just
+    built (descriptors holding `Rectangle` objects are taken as they are). -/
+def mkAllocationDoc (env : Alloc.Env α) (st : Alloc.Eps α) (raws : List (Alloc.RawCell α × Bool)) :
+    Except Alloc.AErr (Alloc.Allocation α × Alloc.Eps α) :=
+  match Alloc.mapE parseCellDoc raws with
+  | .error e => .error e
+  | .ok cells => Alloc.mkAllocation env st (cells.map Alloc.Cell.toRaw)
+
 theorem parseCell_docRaw (c : Alloc.Cell α) (hg : Alloc.CellGood c) (hr : Alloc.validIdent c.rect.region = true)
-    (ha : Alloc.allocOK c.alloc = true) : Alloc.parseCell (docRaw c) = .ok (stripCell c) := by
+    (ha : Alloc.allocOK c.alloc = true) : parseCellDoc (docRaw c) = .ok (stripCell c) := by
   obtain ⟨hw, hh, hx, hy⟩ := hg
   have hcx : 0 ≤ c.rect.cx := by
     have : c.rect.cx = c.rect.xmin + c.rect.w / 2 := by simp [Rect.xmin, Rect.two_eq]
@@ -119,8 +165,10 @@ theorem parseCell_docRaw (c : Alloc.Cell α) (hg : Alloc.CellGood c) (hr : Alloc
   have hcy : 0 ≤ c.rect.cy := by
     have : c.rect.cy = c.rect.ymin + c.rect.h / 2 := by simp [Rect.ymin, Rect.two_eq]
     rw [this]; positivity
-  simp [Alloc.parseCell, docRaw, Alloc.parseRect, Rect.zero_eq, hcx, hcy, hw, hh, le_of_lt hw, le_of_lt hh, hr, ha,
-    stripCell]
+  have hdn : ¬ ((c.depth : Int) < 0) := by omega
+  cases hfx : c.rect.fixed <;>
+  simp [parseCellDoc, markCell, Alloc.parseCell, docRaw, Alloc.parseRect, Rect.zero_eq, hcx, hcy, hw, hh, le_of_lt hw,
+    le_of_lt hh, hr, ha, stripCell, hfx, hdn]
 
 
 theorem amapE_map_ok' {β γ δ ε : Type} (f : γ → Except ε δ) (g : β → γ) (k : β → δ) (l : List β)
@@ -182,18 +230,31 @@ theorem areasCenters_strip (cs : List (Alloc.Cell α)) :
   intro m _
   simp only [Alloc.statOf, modStats_strip]
 
-/-- the constructor sees the stripped cells exactly as it sees the cells: same verdict, same caches, same box. -/
+/-- the effective tolerances of a constructor call: the state in force if defined, otherwise derived from the bounding
+    box `bb` of the cells (`Rectangle.set_epsilon(1e-12 * min(bb.w, bb.h))`). -/
+def effEps (env : Alloc.Env α) (st : Alloc.Eps α) (bb : Rect α) : Alloc.Eps α :=
+  if st.defined then st else ⟨env.tiny * pyMin bb.w bb.h, env.sqrt (env.tiny * pyMin bb.w bb.h)⟩
+
+theorem allocs_strip (cs : List (Alloc.Cell α)) (ha : ∀ c ∈ cs, Alloc.allocOK c.alloc = true) :
+    ∀ c ∈ cs.map stripCell, Alloc.allocOK c.alloc = true := by
+  intro c hc
+  obtain ⟨c0, h0, rfl⟩ := List.mem_map.mp hc
+  exact ha c0 h0
+
+/-- the (REPAIRED) constructor sees the written document exactly as the constructor sees the cells themselves: same
+    verdict, same caches, same box, same tolerance state; the cells come back as `stripCell`. -/
 theorem mkAllocation_docRaw (env : Alloc.Env α) (st : Alloc.Eps α) (cs : List (Alloc.Cell α))
     (hg : ∀ c ∈ cs, Alloc.CellGood c) (hr : ∀ c ∈ cs, Alloc.validIdent c.rect.region = true)
     (ha : ∀ c ∈ cs, Alloc.allocOK c.alloc = true) :
-    Alloc.mkAllocation env st (cs.map docRaw)
+    mkAllocationDoc env st (cs.map docRaw)
       = (match Alloc.mkAllocation env st (cs.map Alloc.Cell.toRaw) with
          | .ok (a, st') => .ok (⟨a.cells.map stripCell, a.stats, a.bbox⟩, st')
          | .error e => .error e) := by
-  have h1 : Alloc.mapE Alloc.parseCell (cs.map docRaw) = .ok (cs.map stripCell) :=
+  have h1 : Alloc.mapE parseCellDoc (cs.map docRaw) = .ok (cs.map stripCell) :=
     amapE_map_ok' _ _ _ _ (fun c hc => parseCell_docRaw c (hg c hc) (hr c hc) (ha c hc))
   have h2 := Alloc.mapE_parse_toRaw cs ha
-  simp only [Alloc.mkAllocation, h1, h2, boundingBox_strip, checkNoOverlap_strip, areasCenters_strip]
+  have h3 := Alloc.mapE_parse_toRaw (cs.map stripCell) (allocs_strip cs ha)
+  simp only [mkAllocationDoc, h1, Alloc.mkAllocation, h2, h3, boundingBox_strip, checkNoOverlap_strip, areasCenters_strip]
   cases Alloc.boundingBox cs with
   | error e => rfl
   | ok bb =>
@@ -202,15 +263,34 @@ theorem mkAllocation_docRaw (env : Alloc.Env α) (st : Alloc.Eps α) (cs : List 
       (⟨env.tiny * pyMin bb.w bb.h, env.sqrt (env.tiny * pyMin bb.w bb.h)⟩ : Alloc.Eps α)) = st2
     cases Alloc.checkNoOverlap st2 cs <;> cases Alloc.areasCenters cs <;> rfl
 
+/-- the constructor on `Rectangle`-object descriptors in ANY tolerance state `st'` (defined or not): it accepts as soon as
+    the pairwise overlaps stay within the area tolerance that will be in force (`effEps`), returns these cells with their
+    caches and box, and leaves `effEps` as the state. -/
+theorem mkAllocation_obj_anystate (env : Alloc.Env α) (st' : Alloc.Eps α) (cs : List (Alloc.Cell α))
+    (bb : Rect α) (stats : List (String × α × α × α)) (hal : ∀ c ∈ cs, Alloc.allocOK c.alloc = true)
+    (hbb : Alloc.boundingBox cs = .ok bb) (hst : Alloc.areasCenters cs = .ok stats)
+    (ha : 0 ≤ (effEps env st' bb).area)
+    (hno : cs.Pairwise (fun c d => c.rect.areaOverlap d.rect ≤ (effEps env st' bb).area)) :
+    Alloc.mkAllocation env st' (cs.map Alloc.Cell.toRaw) = .ok (⟨cs, stats, bb⟩, effEps env st' bb) := by
+  unfold Alloc.mkAllocation
+  rw [Alloc.mapE_parse_toRaw cs hal]
+  simp only [hbb]
+  have hno' : Alloc.checkNoOverlap (effEps env st' bb) cs = true := by
+    unfold Alloc.checkNoOverlap
+    rw [if_neg (by simp [Rect.zero_eq, ha])]
+    exact Alloc.noOverlapPairs_of _ _ hno
+  unfold effEps at hno'
+  simp only [hno', hst, effEps, Bool.not_true, Bool.false_eq_true, if_false]
 
 /-- **the allocation writer composed with the allocation constructor**: for a valid allocation object whose cells carry
-    identifier regions, the written document translates to descriptors on which the constructor — in the same tolerance
-    state — succeeds, leaves the tolerances alone, and returns the same cells up to the run-time marks (`stripCell`),
-    with literally the same caches `_areas / _centers` and the same bounding box. -/
+    identifier regions, the written document translates to descriptors on which the (REPAIRED) constructor — in the same
+    tolerance state — succeeds, leaves the tolerances alone, and returns the same cells, `fixed` marks included
+    (`stripCell` resets only `hard` / STOG location), with literally the same caches `_areas / _centers` and the same
+    bounding box. -/
 theorem alloc_written_constructor (env : Alloc.Env α) (st : Alloc.Eps α) (a : Alloc.Allocation α)
     (hv : Alloc.ValidAlloc st a) (hr : ∀ c ∈ a.cells, Alloc.validIdent c.rect.region = true) :
     rawOfTree (writeAlloc (a.cells.map ofACell)).1 = some (a.cells.map docRaw) ∧
-    Alloc.mkAllocation env st (a.cells.map docRaw) = .ok (⟨a.cells.map stripCell, a.stats, a.bbox⟩, st) := by
+    mkAllocationDoc env st (a.cells.map docRaw) = .ok (⟨a.cells.map stripCell, a.stats, a.bbox⟩, st) := by
   refine ⟨rawOfTree_written a.cells, ?_⟩
   obtain ⟨a', h1, h2, h3⟩ := Alloc.mkAllocation_obj_ok env st a.cells hv.epsDef hv.epsArea hv.cells
   rw [mkAllocation_docRaw env st a.cells hv.cells.good hr hv.cells.allocs, h1]
@@ -219,6 +299,135 @@ theorem alloc_written_constructor (env : Alloc.Env α) (st : Alloc.Eps α) (a : 
   have hb : a'.bbox = a.bbox := by
     have e1 := h3.bbox; rw [h2, hv.bbox] at e1; exact (Except.ok.inj e1).symm
   simp only [h2, hs, hb]
+
+/-- … written in state `st`, re-read in ANY state `st'` (a fresh interpreter: undefined; or whatever an earlier design
+    left): as soon as the pairwise cell overlaps are within the area tolerance in force at the re-read (`effEps`; exact
+    tilings have overlap 0, so any non-negative tolerance does), the (REPAIRED) constructor accepts the written document
+    and returns the same cells (marks included), caches and box; the tolerance state it leaves is `effEps`. -/
+theorem alloc_written_constructor_anystate (env : Alloc.Env α) (st st' : Alloc.Eps α) (a : Alloc.Allocation α)
+    (hv : Alloc.ValidAlloc st a) (hr : ∀ c ∈ a.cells, Alloc.validIdent c.rect.region = true)
+    (ha : 0 ≤ (effEps env st' a.bbox).area)
+    (hno : a.cells.Pairwise (fun c d => c.rect.areaOverlap d.rect ≤ (effEps env st' a.bbox).area)) :
+    mkAllocationDoc env st' (a.cells.map docRaw)
+      = .ok (⟨a.cells.map stripCell, a.stats, a.bbox⟩, effEps env st' a.bbox) := by
+  rw [mkAllocation_docRaw env st' a.cells hv.cells.good hr hv.cells.allocs,
+    mkAllocation_obj_anystate env st' a.cells a.bbox a.stats hv.cells.allocs hv.bbox hv.stats ha hno]
+
+/-! #### the object read back answers the refinement operations as the object that was written
+
+  `refine` / `must_be_refined` read of a cell its geometry, ratio map, depth and `fixed` mark — all of which survive the
+  document — and never `hard` / STOG location, so they commute with `stripCell`. -/
+
+def stripRect (r : Rect α) : Rect α :=
+  { cx := r.cx, cy := r.cy, w := r.w, h := r.h, region := r.region, fixed := r.fixed }
+
+theorem stripCell_rect (c : Alloc.Cell α) : (stripCell c).rect = stripRect c.rect := rfl
+
+theorem split_strip (r : Rect α) :
+    (stripRect r).split = r.split.map fun p => (stripRect p.1, stripRect p.2) := by
+  unfold Rect.split
+  have hw : (stripRect r).w = r.w := rfl
+  have hh : (stripRect r).h = r.h := rfl
+  rw [hw, hh]
+  split
+  · unfold Rect.splitV
+    simp only [stripRect, Rect.ymin, Rect.ymax, Rect.duplicate]
+    split <;> simp [stripRect]
+  · unfold Rect.splitH
+    simp only [stripRect, Rect.xmin, Rect.xmax, Rect.duplicate]
+    split <;> simp [stripRect]
+
+theorem splitAllocation_strip (r : Rect α) (al : Alloc.Alloc α) (d l : Nat) :
+    Alloc.splitAllocation (stripRect r) al d l = (Alloc.splitAllocation r al d l).map (List.map stripCell) := by
+  induction l generalizing r d with
+  | zero => simp [Alloc.splitAllocation, stripCell, stripRect, Except.map]
+  | succ l ih =>
+    simp only [Alloc.splitAllocation, split_strip]
+    cases hs : r.split with
+    | none => rfl
+    | some p =>
+      obtain ⟨r1, r2⟩ := p
+      simp only [Option.map_some, ih]
+      cases Alloc.splitAllocation r1 al (d + 1) l with
+      | error e => rfl
+      | ok a =>
+        simp only [Except.map]
+        cases Alloc.splitAllocation r2 al (d + 1) l with
+        | error e => rfl
+        | ok b => simp [List.map_append]
+
+theorem splitCond_strip (t : α) (c : Alloc.Cell α) : Alloc.splitCond t (stripCell c) = Alloc.splitCond t c := rfl
+
+theorem mapE_map_comm {β γ ε : Type} (f : β → Except ε γ) (g : β → β) (k : γ → γ)
+    (h : ∀ x, f (g x) = (f x).map k) (l : List β) :
+    Alloc.mapE f (l.map g) = (Alloc.mapE f l).map (List.map k) := by
+  induction l with
+  | nil => rfl
+  | cons x r ih =>
+    simp only [List.map_cons, Alloc.mapE, ih, h]
+    cases f x with
+    | error e => rfl
+    | ok y =>
+      simp only [Except.map]
+      cases Alloc.mapE f r with
+      | error e => rfl
+      | ok ys => rfl
+
+/-- `refine`'s new descriptor list on the cells read back = the one on the written cells, read back. -/
+theorem refineCells_strip (t : α) (levels : Nat) (cs : List (Alloc.Cell α)) :
+    Alloc.refineCells t levels (cs.map stripCell) = (Alloc.refineCells t levels cs).map (List.map stripCell) := by
+  unfold Alloc.refineCells
+  have hcomm := mapE_map_comm (fun c : Alloc.Cell α => Alloc.splitAllocation c.rect c.alloc c.depth
+      (if Alloc.splitCond t c then levels else 0)) stripCell (List.map stripCell) (fun c => by
+        have h1 : (stripCell c).alloc = c.alloc := rfl
+        have h2 : (stripCell c).depth = c.depth := rfl
+        show Alloc.splitAllocation (stripCell c).rect (stripCell c).alloc (stripCell c).depth
+          (if Alloc.splitCond t (stripCell c) then levels else 0) = _
+        rw [stripCell_rect, splitCond_strip, splitAllocation_strip, h1, h2]) cs
+  rw [hcomm]
+  cases Alloc.mapE (fun c : Alloc.Cell α => Alloc.splitAllocation c.rect c.alloc c.depth
+      (if Alloc.splitCond t c then levels else 0)) cs with
+  | error e => rfl
+  | ok parts => simp [Except.map, List.map_flatten]
+
+theorem mustBeRefined_strip (a : Alloc.Allocation α) (t : α) :
+    Alloc.mustBeRefined ⟨a.cells.map stripCell, a.stats, a.bbox⟩ t = Alloc.mustBeRefined a t := by
+  simp [Alloc.mustBeRefined, List.any_map, Function.comp_def, splitCond_strip]
+
+/-- what a trip through the document does to an allocation object. -/
+def stripAlloc (a : Alloc.Allocation α) : Alloc.Allocation α := ⟨a.cells.map stripCell, a.stats, a.bbox⟩
+
+/-- the constructor on `Rectangle`-object descriptors does not look at `hard` / STOG location either. -/
+theorem mkAllocation_obj_strip (env : Alloc.Env α) (st : Alloc.Eps α) (cs : List (Alloc.Cell α))
+    (ha : ∀ c ∈ cs, Alloc.allocOK c.alloc = true) :
+    Alloc.mkAllocation env st ((cs.map stripCell).map Alloc.Cell.toRaw)
+      = (Alloc.mkAllocation env st (cs.map Alloc.Cell.toRaw)).map (fun p => (stripAlloc p.1, p.2)) := by
+  have h2 := Alloc.mapE_parse_toRaw cs ha
+  have h3 := Alloc.mapE_parse_toRaw (cs.map stripCell) (allocs_strip cs ha)
+  simp only [Alloc.mkAllocation, h2, h3, boundingBox_strip, checkNoOverlap_strip, areasCenters_strip]
+  cases Alloc.boundingBox cs with
+  | error e => rfl
+  | ok bb =>
+    simp only
+    generalize (if st.defined = true then st else
+      (⟨env.tiny * pyMin bb.w bb.h, env.sqrt (env.tiny * pyMin bb.w bb.h)⟩ : Alloc.Eps α)) = st2
+    cases Alloc.checkNoOverlap st2 cs <;> cases Alloc.areasCenters cs <;> rfl
+
+/-- **`refine` on the object read back = `refine` on the object that was written, read back** (whenever the written
+    object's ratio maps are what the constructor admits). -/
+theorem refine_strip (env : Alloc.Env α) (st : Alloc.Eps α) (a : Alloc.Allocation α) (t : α) (levels : Nat)
+    (hal : ∀ q, Alloc.refineCells t levels a.cells = .ok q → ∀ c ∈ q, Alloc.allocOK c.alloc = true) :
+    Alloc.refine env st (stripAlloc a) t levels
+      = (Alloc.refine env st a t levels).map (fun p => (stripAlloc p.1, p.2)) := by
+  unfold Alloc.refine
+  by_cases hl : levels = 0
+  · simp [hl, Except.map]
+  · simp only [hl, if_false, stripAlloc, refineCells_strip]
+    cases hq : Alloc.refineCells t levels a.cells with
+    | error e => rfl
+    | ok q =>
+      simp only [Except.map]
+      exact mkAllocation_obj_strip env st q (hal q hq)
 
 end ctor
 /-! ### `rect_io.get_netlist`'s accumulator against the allocation's cached area / centre -/
@@ -503,6 +712,140 @@ theorem rectio_denotes_allocation (st : Alloc.Eps α) (a : Alloc.Allocation α) 
     have e2 : c.2 = Alloc.momYSum m a.cells / Alloc.areaSum m a.cells := by
       rw [← i3, ← i1]; field_simp
     rw [← e1, ← e2]
+
+/-! #### the three copies of `valid_identifier` are one function
+
+  `FV.validIdent` (netlist / producer models), `Alloc.validIdent` (allocation constructor model, via `Char.isAlpha` /
+  `isAlphanum`) and `Die.validIdentifier` (die constructor model) transcribe the same regular expression
+  `[A-Za-z_][A-Za-z0-9_]*`; the lemmas below make statements about one usable for the others. -/
+
+theorem char_le_val (a b : Char) : decide (a ≤ b) = decide (a.val ≤ b.val) := rfl
+
+theorem alloc_isIdStart_eq (c : Char) : Alloc.isIdStart c = identStart c := by
+  simp only [Alloc.isIdStart, identStart, Char.isAlpha, Char.isUpper, Char.isLower, Bool.decide_and, ge_iff_le, char_le_val]
+
+theorem alloc_isIdChar_eq (c : Char) : Alloc.isIdChar c = identRest c := by
+  simp only [Alloc.isIdChar, identRest, identStart, Char.isAlphanum, Char.isAlpha, Char.isUpper, Char.isLower, Char.isDigit,
+    Bool.decide_and, ge_iff_le, char_le_val]
+  cases (decide ('A'.val ≤ c.val) && decide (c.val ≤ 'Z'.val)) <;> cases (decide ('a'.val ≤ c.val) && decide (c.val ≤ 'z'.val)) <;>
+    cases (decide ('0'.val ≤ c.val) && decide (c.val ≤ '9'.val)) <;> cases (c == '_') <;> rfl
+
+theorem alloc_validIdent_eq (s : String) : Alloc.validIdent s = FV.validIdent s := by
+  unfold Alloc.validIdent FV.validIdent validIdentChars
+  cases s.toList with
+  | nil => rfl
+  | cons c cs =>
+    simp only [alloc_isIdStart_eq]
+    congr 1
+    induction cs with
+    | nil => rfl
+    | cons x xs ih => simp only [List.all_cons, alloc_isIdChar_eq, ih]
+
+/-! #### `get_netlist` composed with a VALID allocation: accepted, and its modules are the allocation's -/
+
+theorem rioLook_of_mem (mm : RioMap α) (hnd : (mm.map (·.1)).Nodup) (e : String × (α × α) × α) (he : e ∈ mm) :
+    rioLook mm e.1 = some e.2 := by
+  induction mm with
+  | nil => cases he
+  | cons x r ih =>
+    obtain ⟨k, v⟩ := x
+    simp only [List.map_cons, List.nodup_cons] at hnd
+    simp only [rioLook]
+    rcases List.mem_cons.mp he with rfl | h
+    · simp
+    · have hne : ¬ k = e.1 := fun hk => hnd.1 (hk ▸ List.mem_map.mpr ⟨e, h, rfl⟩)
+      rw [if_neg hne]
+      exact ih hnd.2 h
+
+theorem mem_of_rioLook (mm : RioMap α) (m : String) (v : (α × α) × α) (h : rioLook mm m = some v) : (m, v) ∈ mm := by
+  induction mm with
+  | nil => cases h
+  | cons x r ih =>
+    obtain ⟨k, w⟩ := x
+    simp only [rioLook] at h
+    by_cases hk : k = m
+    · rw [if_pos hk] at h; cases h; subst hk; exact List.mem_cons_self
+    · rw [if_neg hk] at h; exact List.mem_cons_of_mem _ (ih h)
+
+theorem occ_nonneg (m : String) (c : Alloc.Cell α) (h : Alloc.allocOK c.alloc = true) : 0 ≤ Alloc.occ m c := by
+  unfold Alloc.occ
+  cases hl : c.alloc.lookup m with
+  | none => simp
+  | some v =>
+    have hm : (m, v) ∈ c.alloc := by
+      have : ∀ (l : List (String × α)), l.lookup m = some v → (m, v) ∈ l := by
+        intro l
+        induction l with
+        | nil => intro h; cases h
+        | cons x r ih =>
+          obtain ⟨k, w⟩ := x
+          intro h
+          simp only [List.lookup] at h
+          by_cases hk : m == k
+          · rw [hk] at h; cases h
+            have : m = k := by simpa using hk
+            subst this; exact List.mem_cons_self
+          · have hk' : (m == k) = false := by simpa using hk
+            rw [hk'] at h; exact List.mem_cons_of_mem _ (ih h)
+      exact this _ hl
+    simpa using (allocOK_unpack c.alloc h).1 (m, v) hm
+
+theorem areaSum_nonneg (m : String) (cs : List (Alloc.Cell α)) (hg : ∀ c ∈ cs, Alloc.CellGood c)
+    (ha : ∀ c ∈ cs, Alloc.allocOK c.alloc = true) : 0 ≤ Alloc.areaSum m cs := by
+  unfold Alloc.areaSum
+  apply List.sum_nonneg
+  intro x hx
+  obtain ⟨c, hc, rfl⟩ := List.mem_map.mp hx
+  obtain ⟨hw, hh, _, _⟩ := hg c hc
+  have := occ_nonneg m c (ha c hc)
+  unfold Rect.area
+  positivity
+
+/-- **`rect_io.get_netlist(None, allocation)` on a valid allocation**: no side condition is left — the module names are
+    identifiers because the allocation constructor checked them (`alloc_validIdent_eq` bridges the two transcriptions of
+    `valid_identifier`), every accumulated area is positive because the constructor refused modules of zero area — so the
+    emitted netlist is ACCEPTED; it has exactly one soft module per module of the allocation, in order of first
+    appearance, and its area / centre are the allocation's `area(m)` / `center(m)`. -/
+theorem rectio_accepted_of_allocation (stog : List (NRect α) → List (NRect α)) (εA : α) (st : Alloc.Eps α)
+    (a : Alloc.Allocation α) (hv : Alloc.ValidAlloc st a) :
+    parseNetlist stog εA (rioTree (a.cells.map ofACell))
+      = .ok { modules := (rioMap (a.cells.map ofACell)).map fun e => softModC e.1 e.2.1 e.2.2, nets := [] } ∧
+    (∀ e ∈ rioMap (a.cells.map ofACell),
+      e.1 ∈ Alloc.modules a.cells ∧ a.areaOf e.1 = some e.2.2 ∧ a.centerOf e.1 = some e.2.1) ∧
+    (∀ m ∈ Alloc.modules a.cells, ∃ e ∈ rioMap (a.cells.map ofACell), e.1 = m) := by
+  have hval : ∀ c ∈ a.cells.map ofACell, ∀ kv ∈ c.alloc, validIdent kv.1 = true := by
+    intro c hc kv hkv
+    obtain ⟨c0, h0, rfl⟩ := List.mem_map.mp hc
+    simp only [ofACell, List.mem_map] at hkv
+    obtain ⟨p, hp, rfl⟩ := hkv
+    have := hv.cells.allocs c0 h0
+    simp only [Alloc.allocOK, Bool.and_eq_true, List.all_eq_true] at this
+    have h1 := (this.1 p hp).1.1
+    rw [alloc_validIdent_eq] at h1
+    exact h1
+  obtain ⟨hnd, _⟩ := rioMap_keys (a.cells.map ofACell) hval
+  have hent : ∀ e ∈ rioMap (a.cells.map ofACell),
+      e.1 ∈ Alloc.modules a.cells ∧ a.areaOf e.1 = some e.2.2 ∧ a.centerOf e.1 = some e.2.1 := by
+    intro e he
+    have hl := rioLook_of_mem _ hnd e he
+    have := rectio_denotes_allocation st a hv e.1
+    rw [hl] at this
+    exact this
+  refine ⟨rectio_parseNetlist stog εA _ hval ?_, hent, ?_⟩
+  · intro e he
+    obtain ⟨hm, harea, _⟩ := hent e he
+    have hc := (hv.caches e.1).1 hm
+    rw [hc.1] at harea
+    have heq : Alloc.areaSum e.1 a.cells = e.2.2 := Option.some.inj harea
+    have hnz := hv.cells.areaNZ e.1 hm
+    have hnn := areaSum_nonneg e.1 a.cells hv.cells.good hv.cells.allocs
+    rw [← heq]
+    exact lt_of_le_of_ne hnn (Ne.symm hnz)
+  · intro m hm
+    have := rectio_denotes_allocation st a hv m
+    cases hl : rioLook (rioMap (a.cells.map ofACell)) m with
+    | none => rw [hl] at this; exact absurd hm this.1
+    | some v => exact ⟨(m, v), mem_of_rioLook _ m v hl, rfl⟩
 
 end rio
 end FV.Prod
